@@ -11,7 +11,14 @@ class Give(Exception):
 
 
 def _som(e):
-    return z3.simplify(e, som=True, som_blowup=10000000)
+    """z3's sum-of-monomials normal form; one pass does not always merge like monomials whose factors
+    arrive in different order, so iterate to a fixpoint"""
+    for _ in range(4):
+        y = z3.simplify(e, som=True, som_blowup=10000000)
+        if y.eq(e):
+            break
+        e = y
+    return e
 
 
 class Rat:
